@@ -127,11 +127,270 @@ def corpus():
     ]
 
 
+# ---------------------------------------------------------------------------------------------
+# independent oracle for the sequential families: the probes at every layer boundary give, for each
+# wrapper, the calls it received and the calls it made; each clause of the property is evaluated on
+# that wrapper alone (no model of the composition is needed)
+# ---------------------------------------------------------------------------------------------
+class Node:
+    __slots__ = ("kind", "id", "arg", "res", "kids", "t0", "t1")
+
+    def __init__(self, kind, id_, t0, arg=None):
+        self.kind, self.id, self.arg, self.res, self.kids, self.t0, self.t1 = kind, id_, arg, None, [], t0, None
+
+
+def parse_res(s):
+    """-> ('ret', v, [atoms]) or ('panic', None, [atoms])"""
+    if s.startswith("!"):
+        return ("panic", None, [a for a in s[1:].split("+") if a])
+    v, e = s.split("/", 1)
+    return ("ret", int(v), [a for a in e.split("+") if a])
+
+
+def parse_trace(tr):
+    """-> list of top-level nodes; raises ValueError on a malformed trace"""
+    root = Node("root", -1, -1)
+    stack = [root]
+    for t, tok in enumerate(tr.split()):
+        if tok.startswith("<"):
+            n = Node("layer", int(tok[1:]), t); stack[-1].kids.append(n); stack.append(n)
+        elif tok.startswith("("):
+            i, a = tok[1:].split(":"); n = Node("fn", int(i), t, int(a)); stack[-1].kids.append(n); stack.append(n)
+        else:
+            m = re.match(r"^(\d+)([>)])(.*)$", tok)
+            if not m:
+                raise ValueError("bad token " + tok)
+            n = stack.pop()
+            want = "layer" if m.group(2) == ">" else "fn"
+            if n.kind != want or n.id != int(m.group(1)):
+                raise ValueError(f"unbalanced trace at {tok}")
+            n.res, n.t1 = parse_res(m.group(3)), t
+    if len(stack) != 1:
+        raise ValueError("unterminated call in trace")
+    return root.kids
+
+
+def all_nodes(nodes):
+    for n in nodes:
+        yield n
+        yield from all_nodes(n.kids)
+
+
+def is_ok(res):
+    return res[0] == "ret" and not res[2]
+
+
+def check_layer(kind, i, spec, calls, cancelled_at):
+    """calls: the nodes of layer i in call order. Returns a reason or None."""
+    name = spec[0]
+    inner = lambda c: [k for k in c.kids if k.kind == "layer" and k.id == i - 1]
+    parts = lambda c: [k for k in c.kids if k.kind == "fn"]
+    for c in calls:
+        for k in c.kids:
+            if not ((k.kind == "layer" and k.id == i - 1) or (k.kind == "fn" and k.id // 10 == i)):
+                return f"layer {i} ({name}) called something that is not its inner function or its own hook/part"
+    if name == "once":
+        execs = [k for c in calls for k in inner(c)]
+        if len(execs) != min(1, len(calls)):
+            return f"Once: {len(calls)} calls executed the function {len(execs)} times"
+        if calls and not inner(calls[0]):
+            return "Once: the first call did not execute the function"
+        if execs and execs[0].res[0] == "ret":
+            for n, c in enumerate(calls):
+                if c.res != execs[0].res:
+                    return f"Once: call {n} observed {c.res} but the single execution returned {execs[0].res}"
+        return None
+    if name == "limit":
+        n = int(spec[1])
+        done, last = 0, None
+        for j, c in enumerate(calls):
+            ex = inner(c)
+            if done < n:
+                if len(ex) != 1:
+                    return f"Limit({n}): call {j} with {done} completed executions ran the function {len(ex)} times"
+                if ex[0].res[0] == "ret" or kind == "O":
+                    done += 1; last = ex[0].res
+                if kind != "O" and c.res != ex[0].res:
+                    return f"Limit({n}): call {j} executed the function with {ex[0].res} but returned {c.res}"
+            else:
+                if ex:
+                    return f"Limit({n}): call {j} executed the function although {done} executions had completed"
+                if kind != "O" and c.res != last:
+                    return f"Limit({n}): call {j} returned {c.res}, the last ({n}-th) execution returned {last}"
+        npan = sum(1 for c in calls for k in inner(c) if k.res[0] == "panic") if kind != "O" else 0
+        total = sum(len(inner(c)) for c in calls)
+        if total - npan != min(n, len(calls) - npan):
+            return f"Limit({n}): {len(calls)} calls ({npan} panicking executions) completed {total - npan} executions"
+        return None
+    if name == "lock":
+        for c in calls:
+            ex = inner(c)
+            if len(ex) != 1 or ex[0].res != c.res:
+                return "Lock: a call is not exactly one execution with the same result"
+        return None
+    if name == "retry":
+        n = int(spec[1])
+        for c in calls:
+            at = inner(c)
+            if len(at) > n:
+                return f"Retry({n}) made {len(at)} attempts"
+            for j, a in enumerate(at):
+                final = (j == len(at) - 1)
+                r = a.res
+                term = r[0] == "ret" and any(x in TERMINATING for x in r[2])
+                skip = r[0] == "ret" and "skip" in r[2]
+                stops = r[0] == "panic" or is_ok(r) or (term and not skip)
+                goes_on = r[0] == "ret" and r[2] and (not term or skip)
+                if not final and not goes_on:
+                    return f"Retry({n}): attempt {j} ended with {r} (success or terminating) but another attempt followed"
+                if final and len(at) < n and not (stops or (term and skip)):
+                    return f"Retry({n}): stopped after {len(at)} attempts although the last one ended with {r}"
+            if any(is_ok(a.res) for a in at):
+                if c.res[0] != "ret" or c.res[2]:
+                    return f"Retry({n}): an attempt succeeded but the call reported {c.res}"
+                if kind == "P":
+                    okv = [a.res[1] for a in at if is_ok(a.res)][0]
+                    if c.res[1] != okv:
+                        return f"Retry({n}): the successful attempt produced {okv} but the call returned {c.res[1]}"
+            if c.res[0] == "ret" and c.res[2]:
+                seen = [x for a in at if a.res[0] == "ret" for x in a.res[2]]
+                if any(x not in seen for x in c.res[2]):
+                    return f"Retry({n}): reported {c.res[2]} which is not made of the attempts' failures {seen}"
+            if c.res[0] == "panic" and not any(a.res[0] == "panic" for a in at):
+                return f"Retry({n}): panicked without a panicking attempt"
+        return None
+    if name == "join":
+        m = int(spec[1])
+        if kind == "P":
+            order = []
+            for c in calls:
+                for k in c.kids:
+                    order.append(0 if k.kind == "layer" else k.id % 10)
+            if order != sorted(order):
+                return f"Producer.Join: a later producer ran before an earlier one again: {order}"
+            return None
+        want = [0] + list(range(1, m + 1))
+        for c in calls:
+            got = [0 if k.kind == "layer" else k.id % 10 for k in c.kids]
+            if got != want[:len(got)] or not got:
+                return f"Join: parts ran in order {got}, documented order is {want}"
+            for j, k in enumerate(c.kids):
+                final = (j == len(c.kids) - 1)
+                r = k.res
+                cont = r[0] == "ret" and (kind in ("H", "F") or (not cancelled_at(k.t1) and (kind == "O" or not r[2])))
+                if not final and not cont:
+                    return f"Join: part {got[j]} ended with {r}" + (" and the context was cancelled" if cancelled_at(k.t1) else "") + " but the next part ran"
+                if final and len(got) < len(want) and cont:
+                    return f"Join: stopped after part {got[j]} which ended with {r} although the context was live"
+            lastr = c.kids[-1].res
+            if kind in ("W", "X") and c.res != lastr and not (c.res == ("ret", 0, []) and cancelled_at(c.kids[-1].t1) and is_ok(lastr)):
+                return f"Join: returned {c.res} but the last part that ran returned {lastr}"
+            if kind == "F" and c.res[0] == "ret" and c.res[1] != sum(k.res[1] for k in c.kids):
+                return f"Future.Join: merged value {c.res[1]} is not the sum of the parts"
+        return None
+    if name in ("prehook", "posthook"):
+        for c in calls:
+            seq = ["f" if k.kind == "layer" else "h" for k in c.kids]
+            rs = {("f" if k.kind == "layer" else "h"): k.res for k in c.kids}
+            if name == "prehook":
+                stop_after_hook_panic = kind in ("O", "H", "F") and rs.get("h", ("ret",))[0] == "panic"
+                want = ["h"] if stop_after_hook_panic else ["h", "f"]
+            else:
+                skip_hook = kind in ("W", "X", "P") and rs.get("f", ("ret",))[0] == "panic"
+                want = ["f"] if skip_hook else ["f", "h"]
+            if seq != want:
+                return f"{name}: ran {seq}, documented order is {want}"
+            if kind in ("W", "X", "P") and "h" in rs and rs["h"][0] == "panic" and rs.get("f", ("ret",))[0] == "ret":
+                if c.res[0] != "ret" or "recovered" not in c.res[2]:
+                    return f"{name}: the hook panicked but the call returned {c.res}"
+            if "f" in rs and rs["f"][0] == "ret" and c.res[0] == "ret":
+                if any(x not in c.res[2] for x in rs["f"][2]) or c.res[1] != rs["f"][1]:
+                    return f"{name}: the function returned {rs['f']} but the call returned {c.res}"
+        return None
+    if name == "if" and spec[1] == "0":
+        if any(c.kids for c in calls):
+            return "If(false) executed the function"
+    return None
+
+
+def seq_predicate(t, obs):
+    kind, stack, script, ops = t[1], t[2][1:], t[3][1:], t[4][1:]
+    if obs.startswith("ctor!"):
+        if any(w[0] == "limit" and int(w[1]) <= 0 for w in stack):
+            return None
+        return "constructing the wrapper stack panicked: " + obs[:80]
+    try:
+        head, inv, tr = obs.split("|")
+        results = head.split(";") if head else []
+        top = parse_trace(tr[3:])
+    except ValueError as e:
+        return f"malformed observation ({e})"
+    ncalls = sum(1 for o in ops if o[0] in ("call", "calld"))
+    L = len(stack)
+    if len(results) != ncalls or len(top) != ncalls or any(n.kind != "layer" or n.id != L for n in top):
+        return f"{ncalls} calls but {len(results)} results / {len(top)} top-level trace entries"
+    nodes = list(all_nodes(top))
+    fns = [n for n in nodes if n.kind == "fn"]
+    if int(inv[4:]) != sum(1 for n in fns if n.id == 0):
+        return "invocation counter and trace disagree"
+    # when is the global context cancelled: by a (cancel) op between calls or by a function that says so
+    cancel_times = []
+    for j, n in enumerate(sorted(fns, key=lambda n: n.t0)):
+        if j < len(script) and "c" in script[j][1:]:
+            cancel_times.append(n.t0)
+    ci = 0
+    for o in ops:
+        if o[0] in ("call", "calld"):
+            ci += 1
+        elif o[0] == "cancel":
+            cancel_times.append(top[ci].t0 - 0.5 if ci < len(top) else 10 ** 9)
+    dead_calls = [(top[j].t0, top[j].t1) for j, o in enumerate(o for o in ops if o[0] in ("call", "calld")) if o[0] == "calld"]
+    has_wc = any(w[0] == "withcancel" for w in stack)
+
+    def cancelled_at(t):
+        if any(ct <= t for ct in cancel_times) or any(a <= t <= b for a, b in dead_calls):
+            return True
+        return False
+    for n, r in zip(top, results):
+        if parse_res(r) != n.res:
+            return "a call's result differs from what the outermost probe saw"
+    for i, spec in enumerate(stack, start=1):
+        calls = [n for n in nodes if n.kind == "layer" and n.id == i]
+        if has_wc and spec[0] == "join" and kind in ("W", "X", "O"):
+            continue      # the context a part sees depends on WithCancel's derived context: judged by the model only
+        why = check_layer(kind, i, spec, calls, cancelled_at)
+        if why:
+            return why
+    return None
+
+
+def adt_predicate(t, obs):
+    new, script, ops = t[1][1:], t[2][1:], t[3][1:]
+    try:
+        head, inv, tr = obs.split("|")
+        results = [parse_res(r) for r in head.split(";")]
+        fns = parse_trace(tr[3:])
+    except ValueError as e:
+        return f"malformed observation ({e})"
+    if len(fns) > 1:
+        return f"adt.Once ran {len(fns)} constructor executions"
+    resolved = [r for r, o in zip(results, ops) if o[0] == "resolve" and r[0] == "ret"]
+    if fns and fns[0].res[0] == "ret":
+        if any(r[1] != fns[0].res[1] for r in resolved):
+            return f"adt.Once: Resolve returned {resolved} but the single execution produced {fns[0].res[1]}"
+    return None
+
+
 def predicate(line, obs, allow_known=False):
     if obs is None:
         return "no observation"
     if obs.startswith("bad") or obs.startswith("PANIC"):
         return "harness error: " + obs[:200]
+    t = C.parse_sx(line)
+    if t[0] == "seq":
+        return seq_predicate(t, obs)
+    if t[0] == "adtonce":
+        return adt_predicate(t, obs)
     return None
 
 
